@@ -46,7 +46,7 @@ fn u_with(b: &Universal2DBox, i: usize, v: f32) -> Universal2DBox {
 fn main() {
     let cli = Cli::parse();
     let mut rep = Report::new("C19", &cli);
-    rep.note("rule", json!("case = random base box (magnitudes 1e-2..1e4, angle None/Some incl. k*pi/2 and |angle|>2pi). Per base: ltwh->universal->ltwh round trip; polygon vertices vs an f64 rotation of the axis-aligned rectangle (as a vertex set, plus shoelace area in the given order, centroid, max vertex radius vs area()/centre/get_radius()); equality: reflexive, and for EVERY field of BoundingBox (5) and Universal2DBox (5) x delta in {+-EPS/4, +-4EPS, +-1, +-100} x both argument orders: symmetric, equal iff the actual f32 difference < EPS (pairs whose actual difference is within 2% of EPS are skipped and counted); normalize_angle: result in [0, 2pi_f32] and congruent to the input modulo 2pi within rounding. Non-trivial: every base box (distinct by field bits)."));
+    rep.note("rule", json!("case = random base box (magnitudes 1e-2..1e4, angle None/Some incl. k*pi/2 and |angle|>2pi). Per base: ltwh->universal->ltwh round trip; polygon vertices vs an f64 rotation of the axis-aligned rectangle (as a vertex set, plus shoelace area in the given order, centroid, max vertex radius vs area()/centre/get_radius()); equality: reflexive, and for EVERY field of BoundingBox (5) and Universal2DBox (5) x delta in {+-EPS/4, +-4EPS, +-1, +-100} x both argument orders: symmetric, equal iff the actual f32 difference < EPS; plus pairs differing in several coordinates at once (all below EPS => equal, any clearly above => unequal) (pairs whose actual difference is within 2% of EPS are skipped and counted); normalize_angle: result in [0, 2pi_f32] and congruent to the input modulo 2pi within rounding. Non-trivial: every base box (distinct by field bits)."));
     rep.note("assumptions", json!(["equality is judged on the difference actually representable in f32 after applying the delta (at |x|=1e4 a delta of EPS/4 is absorbed by rounding and the pair is then expected to be equal)"]));
     let n = cli.cases(4000, 400_000);
     let deltas: [f32; 8] = [EPS / 4.0, -EPS / 4.0, 4.0 * EPS, -4.0 * EPS, 1.0, -1.0, 100.0, -100.0];
@@ -89,7 +89,9 @@ fn main() {
         }
 
         // --- polygon
-        let angle: Option<f32> = match rng.usize(6) {
+        let angle: Option<f32> = match rng.usize(7) {
+            // tiny non-zero angles: still a rotation (vertex displacement = angle x half-diagonal)
+            6 => Some((rng.log_uniform(1e-8, 1e-4) * if rng.chance(0.5) { 1.0 } else { -1.0 }) as f32),
             0 => None,
             1 => Some(0.0),
             2 => Some((rng.range(-8, 8) as f32) * std::f32::consts::FRAC_PI_2),
@@ -205,6 +207,56 @@ fn main() {
                     }
                 } else {
                     rep.count("eq_skipped_in_band");
+                }
+            }
+        }
+
+        // --- several coordinates perturbed at once (each by less than EPS => equal; any by clearly more => unequal)
+        for _ in 0..6 {
+            let all_small = rng.chance(0.5);
+            let mut bo = bb;
+            let mut uo = ub.clone();
+            let (mut maxb, mut maxu) = (0.0f64, 0.0f64);
+            let (mut okb, mut oku) = (true, true);
+            for f in 0..5 {
+                if !rng.chance(0.6) {
+                    continue;
+                }
+                let d = if all_small { (rng.uniform(0.3, 0.95) * EPS as f64) as f32 } else if rng.chance(0.4) { 4.0 * EPS } else { (rng.uniform(0.3, 0.95) * EPS as f64) as f32 } * if rng.chance(0.5) { 1.0 } else { -1.0 };
+                let base = bb_field(&bb, f);
+                let v = base + d;
+                if !(f == 4 && !(0.0..=1.0).contains(&v)) && !((f == 2 || f == 3) && v <= 0.0) {
+                    bo = bb_with(&bo, f, v);
+                    let a = (v as f64 - base as f64).abs();
+                    maxb = maxb.max(a);
+                    if a > 0.98 * eps && a < 1.02 * eps {
+                        okb = false;
+                    }
+                }
+                let base = u_field(&ub, f);
+                let v = base + d;
+                if !((f == 3 || f == 4) && v <= 0.0) {
+                    uo = u_with(&uo, f, v);
+                    let a = (v as f64 - base as f64).abs();
+                    maxu = maxu.max(a);
+                    if a > 0.98 * eps && a < 1.02 * eps {
+                        oku = false;
+                    }
+                }
+            }
+            rep.count("eq_multi_coordinate_pairs");
+            if okb {
+                let (ab, ba) = (bb == bo, bo == bb);
+                let expect = maxb < 0.98 * eps;
+                if ab != ba || ab != expect {
+                    rep.violation(if expect { "C19/eq/BoundingBox/all-close-but-unequal" } else { "C19/eq/BoundingBox/some-far-but-equal" }, idx, json!({"a": [bb.left, bb.top, bb.width, bb.height, bb.confidence], "b": [bo.left, bo.top, bo.width, bo.height, bo.confidence], "a==b": ab, "b==a": ba, "largest_difference": maxb}));
+                }
+            }
+            if oku {
+                let (ab, ba) = (ub == uo, uo == ub);
+                let expect = maxu < 0.98 * eps;
+                if ab != ba || ab != expect {
+                    rep.violation(if expect { "C19/eq/Universal2DBox/all-close-but-unequal" } else { "C19/eq/Universal2DBox/some-far-but-equal" }, idx, json!({"a": [ub.xc, ub.yc, ub.angle, ub.aspect, ub.height], "b": [uo.xc, uo.yc, uo.angle, uo.aspect, uo.height], "a==b": ab, "b==a": ba, "largest_difference": maxu}));
                 }
             }
         }
